@@ -66,6 +66,9 @@ OTHER_RULES = {
         ("keyword-written-bare", lambda s, d: any(("'%s'" % k) in s for k in ("if", "then", "else", "let", "in", "with", "assert", "rec", "inherit"))),
         ("quoted-vs-bare-name", lambda s, d: True),
     ],
+    "C16": [
+        ("file-channel-translates-crlf", lambda s, d: "crlf" in s),
+    ],
     "C13": [
         ("negative-number-in-list", lambda s, d: "[ -" in d or " -" in d and "[" in d),
         ("float-exponent-form", lambda s, d: "e+" in d or "e-" in d),
@@ -79,6 +82,7 @@ OTHER_META = {
     "bare-segment-trailing-newline": ("a bare path segment followed by a newline is accepted and written unquoted (the name silently loses the newline)", "cli/manipulations.py:_NPATH_IDENTIFIER_RE uses `$`, which matches before a trailing newline"),
     "keyword-written-bare": ("Nix keywords are accepted as bare path segments and written bare (`{ if = 1; }`), which is not valid Nix", "cli/manipulations.py:_format_attr_name only checks the identifier regex"),
     "quoted-vs-bare-name": ("bare and quoted spellings of the same name are different keys: duplicate definitions / KeyError on rm", "cli/manipulations.py:_find_binding/_find_named_binding compare the rendered spelling, not the decoded name"),
+    "file-channel-translates-crlf": ("`-f FILE` reads with universal-newline translation while stdin does not: a CRLF file is reported OK by `nima test -f` and Fail through stdin", "cli/parser.py: argparse.FileType('r') opens in text mode with newline=None"),
     "negative-number-in-list": ("negative numbers are rendered bare inside lists (`[ -1 ]`), a syntax error", "list.py:NixList.rebuild does not parenthesise unary minus"),
     "float-exponent-form": ("floats whose repr uses an exponent render as `1e-07` / `1e+16`, which Nix reads as something else", "expression.py:coerce_expression uses repr(value)"),
 }
